@@ -18,13 +18,13 @@ EARLY = ("ST", "PR")  # unsolicited frames right behind the handshake message: a
 
 
 def run_session(name_variant: str, expected: bool, app: tuple[str, ...], cuts: tuple[int, ...], probe_send: bool = False,
-                recycled: bool = False, listener: str = "", stall: float = 0.0) -> dict[str, Any]:
+                recycled: bool = False, listener: str = "", stall: float = 0.0, hello_name: str | None = None) -> dict[str, Any]:
     """One fresh session (fresh client ephemeral key) whose server stream is cut at ``cuts``; () = one chunk, (-1,) = byte-wise."""
     from aioesphomeapi.core import APIConnectionError, BadNameAPIError
 
     exp = EXPECTED if expected else None
     Session.RECYCLED[0] = recycled
-    s = Session(name_variant, exp, app, early=EARLY, listener=listener)
+    s = Session(name_variant, exp, app, early=EARLY, listener=listener, hello_name=hello_name)
     w = s.w
     try:
         stream = s.stream()
@@ -148,6 +148,13 @@ def run(tier: str, seed: int) -> Result:
             jobs.append((nv, exp, ("ST",), (-1,), True))
             for c in range(1, ends[1] + 2):
                 jobs.append((nv, exp, ("ST",), (c,), True))
+    # 1b. the server hello decides: a device whose (later, authenticated) HelloResponse carries no name is still accepted
+    for nv in ("absent", "equal", "equal+mac", "empty"):
+        for exp in (False, True):
+            if nv == "empty" and exp:
+                continue
+            jobs.append((nv, exp, ("ST", "PR"), (), False, False, "", 0.0, ""))
+            jobs.append((nv, exp, ("ST", "PR"), (-1,), False, False, "", 0.0, ""))
     # 2. chunking: all segmentations with <= 2 cuts of a session with application frames
     app = ("ST", "PR", "TX") if q else ("ST", "PR", "LOG")
     n, ends = stream_layout("equal", True, app)
@@ -221,9 +228,10 @@ def run(tier: str, seed: int) -> Result:
     for a, o in outs:
         if o["viol"]:
             kind = o["viol"].split(":")[0][:60]
-            res.add(f"name={a[0]},expected={a[1]},app={a[2]},cuts={a[3]}{',stall=' + str(a[7]) if len(a) > 7 and a[7] else ''}|{kind}", o["viol"],
+            res.add(f"name={a[0]},expected={a[1]},app={a[2]},cuts={a[3]}{',stall=' + str(a[7]) if len(a) > 7 and a[7] else ''}{',hello_name=' + repr(a[8]) if len(a) > 8 and a[8] is not None else ''}|{kind}", o["viol"],
                     {"harness": "c03", "name_variant": a[0], "expected": a[1], "app": list(a[2]), "cuts": list(a[3]), "probe_send": a[4],
-                     "recycled": a[5] if len(a) > 5 else False, "listener": a[6] if len(a) > 6 else "", "stall": a[7] if len(a) > 7 else 0.0})
+                     "recycled": a[5] if len(a) > 5 else False, "listener": a[6] if len(a) > 6 else "", "stall": a[7] if len(a) > 7 else 0.0,
+                     "hello_name": a[8] if len(a) > 8 else None})
     if len(res.violations) > 6:
         res.violations = res.violations[:6]
     if not res.violations and (len(outs) < 5000 or rejects < 50):
@@ -254,6 +262,6 @@ def replay(rp: dict[str, Any]) -> bool:
     env.load()
     d = rp["detail"]
     o = run_session(d["name_variant"], d["expected"], tuple(d["app"]), tuple(d["cuts"]), d.get("probe_send", False),
-                    d.get("recycled", False), d.get("listener", ""), float(d.get("stall", 0.0)))
+                    d.get("recycled", False), d.get("listener", ""), float(d.get("stall", 0.0)), d.get("hello_name"))
     print(o)
     return o["viol"] is None
